@@ -206,10 +206,9 @@ func TestC08(t *testing.T) {
 	rep.Assume("signed frames forwarded with a dialect go to a next hop without InKey (the statement promises checksum validity there, not signature survival)")
 	seed := vh.Seed()
 	r := vh.Sub(seed, "c08")
-	all, err := shippedMessages()
-	if err != nil {
-		t.Fatal(err)
-	}
+	all := shippedOrViolation(rep, t)
+	var err error
+	_ = err
 	deep := vh.Thorough()
 
 	// (1) without dialect
